@@ -105,10 +105,16 @@ func c17Enumerate(tier string, yield func(any)) {
 			}
 		}
 	}
+	// an artifact file with a damaged key block (scalar = group order) in every position relative to valid blocks
+	for _, o := range []string{"K", "Kc", "cK", "Kr", "rK", "cKr", "Krc", "rcK", "crK", "Kcr", "rKc"} {
+		for _, h := range []bool{false, true} {
+			yield(&c17Case{Kind: "file", Blocks: o, Hash: h, KeyFix: "P-256-0"})
+		}
+	}
 	// rejection inputs
 	for i := range refx509.Curves {
 		ci := &refx509.Curves[i]
-		for _, r := range []string{"scalar=n", "scalar=n+1", "scalar=2^(8len)-1", "unknown-curve-oid", "missing-curve", "ecprivatekey-version-2", "ecprivatekey-version-0", "rsa-body-in-ec-wrapper"} {
+		for _, r := range []string{"scalar=0", "scalar=n", "scalar=n+1", "scalar=2^(8len)-1", "unknown-curve-oid", "missing-curve", "ecprivatekey-version-2", "ecprivatekey-version-0", "rsa-body-in-ec-wrapper"} {
 			yield(&c17Case{Kind: "reject", Curve: ci.Name, Reject: r})
 		}
 		// every strict prefix of a valid encoding
@@ -380,6 +386,10 @@ func c17File(x *engine.Ctx, c *c17Case) {
 			file = append(file, refx509.EncodePem("CERTIFICATE", certDER)...)
 		case 'k':
 			file = append(file, refx509.EncodePem("PRIVATE KEY", keyDER)...)
+		case 'K':
+			ci := refx509.CurveByName("P-256")
+			bad := refx509.BuildECPKCS8(ci, ci.Curve.Params().N, refx509.ECEncoding{OuterOID: true})
+			file = append(file, refx509.EncodePem("PRIVATE KEY", bad)...)
 		case 'r':
 			file = append(file, refx509.EncodePem("CERTIFICATE REQUEST", reqDER)...)
 		}
@@ -394,6 +404,17 @@ func c17File(x *engine.Ctx, c *c17Case) {
 	feat := fmt.Sprintf("blocks=%s hash=%v", sortBlocks(c.Blocks), c.Hash)
 	if c.Layout != "" {
 		feat += " layout=" + c.Layout
+	}
+	if strings.Contains(c.Blocks, "K") {
+		// a block that claims to be a private key and is not one: the file is reported, wherever the block stands
+		pf, err := cert.ReadPem(file)
+		if err == nil {
+			x.Violation("C17/file/damaged-key-block-not-reported order="+c.Blocks, fmt.Sprintf("hash line %v: ReadPem returned no error (key object %T): a file whose PRIVATE KEY block is invalid reads like one without key", c.Hash, pf.PrivateKey))
+		} else if pf.PrivateKey != nil {
+			x.Violation("C17/file/error-but-key-object-returned order="+c.Blocks, fmt.Sprintf("%v and PrivateKey = %T", err, pf.PrivateKey))
+		}
+		x.Outcome("file with damaged key block")
+		return
 	}
 	var pf cert.PemFileContent
 	if c.Layout != "" {
@@ -523,6 +544,8 @@ func c17Reject(x *engine.Ctx, c *c17Case) {
 		}
 		curveOID := refder.MustOID(ci.OID)
 		switch c.Reject {
+		case "scalar=0":
+			der = mk(big.NewInt(0), 1, curveOID)
 		case "scalar=n":
 			der = mk(n, 1, curveOID)
 		case "scalar=n+1":
@@ -643,9 +666,9 @@ func init() {
 	register(&engine.Check{
 		ID:          "C17",
 		Level:       "exploration",
-		Rule:        "10 curves x boundary scalars (1,2,3,n-1,n-2,n/2, the largest and smallest value of every octet length 1..len-1, i.e. every number of leading zero octets, 8 mid-range; 70..150 per curve) through cert.WritePrivateKeyToPem -> cert.ReadPem, the reference PKCS#8 decoder, crypto/x509 in both directions (NIST) , 8 reference-built PKCS#8 layouts (curve OID outer / inner / both, with and without embedded public key, compressed public point) and the minimal-length (leading zeros stripped) encodings; 10 RSA fixture keys 1024..4096; artifact files for all 16 block orders over {cert,key,request} x hash line x 4 key types through cert.ReadPem, and the 15 non-empty orders as an entity's artifact read by opening the directory with the hash line first / after the first block / last and with a blank line at the end; rejection inputs: scalar n, n+1, 2^(8len)-1, unknown/missing curve, ECPrivateKey version 0/2, swapped RSA/EC bodies, unknown algorithm, every strict prefix of a valid EC key per curve and of an RSA key, PEM around non-DER, and SEC1 / PKCS#1 / encrypted key blocks (an error or the key, never silently nothing). non-trivial = distinct case that reached a comparison",
+		Rule:        "10 curves x boundary scalars (1,2,3,n-1,n-2,n/2, the largest and smallest value of every octet length 1..len-1, i.e. every number of leading zero octets, 8 mid-range; 70..150 per curve) through cert.WritePrivateKeyToPem -> cert.ReadPem, the reference PKCS#8 decoder, crypto/x509 in both directions (NIST) , 8 reference-built PKCS#8 layouts (curve OID outer / inner / both, with and without embedded public key, compressed public point) and the minimal-length (leading zeros stripped) encodings; 10 RSA fixture keys 1024..4096; artifact files for all 16 block orders over {cert,key,request} x hash line x 4 key types through cert.ReadPem, and the 15 non-empty orders as an entity's artifact read by opening the directory with the hash line first / after the first block / last and with a blank line at the end, and 11 orders with a damaged key block among valid blocks (must be reported); rejection inputs: scalar 0, n, n+1, 2^(8len)-1, unknown/missing curve, ECPrivateKey version 0/2, swapped RSA/EC bodies, unknown algorithm, every strict prefix of a valid EC key per curve and of an RSA key, PEM around non-DER, and SEC1 / PKCS#1 / encrypted key blocks (an error or the key, never silently nothing). non-trivial = distinct case that reached a comparison",
 		Bound:       map[string]string{"scalars": "boundary values only (any valid scalar is unbounded)", "rsa": "fixture keys 1024,1536,2048,3072,4096 (two each)"},
-		Assumptions: []string{"outer PKCS#8 version, scalar 0 and trailing bytes after a complete DER value are not in the rejection alphabet (neither gopki nor the standard library rejects them)", "crypto/x509 is the 'standard library parser' of the statement"},
+		Assumptions: []string{"outer PKCS#8 version and trailing bytes after a complete DER value are not in the rejection alphabet (neither gopki nor the standard library rejects them)", "crypto/x509 is the 'standard library parser' of the statement"},
 		Budget:      budgets(quickBudget, thoroughBudget),
 		Enumerate:   c17Enumerate,
 		NewCase:     func() any { return &c17Case{} },
